@@ -539,7 +539,31 @@ class Gen:
         r = self.r
         if self.closed or self.waiter:
             return
-        kind = r.choice(["dial", "hs", "hs", "gate", "gate", "gate", "resend"])
+        kind = r.choice(["dial", "hs", "hs", "gate", "gate", "gate", "resend", "slowsave"])
+        if kind == "slowsave":
+            # a persisted publish parks inside a slow Persistence.Save (it holds the sequence lock of its level) while the
+            # read routine connects, resends, or handles acknowledgements; then the store lets it through
+            if self.m1 == 0 and self.m2 == 0:
+                return
+            self.emit("sgate", "%s 0 %s %s" % ("pal" if (self.m1 != 0 and (self.m2 == 0 or r.random() < 0.5)) else "peo", H(self.topic()), H(self.payload(False))))
+            if self.link != "live" or self.doomed:
+                if not self.reader_out:
+                    self.emit("dial ok %s" % H(mq.connack(0, 0)), "feed block", "rs")
+            else:
+                roll = r.random()
+                if roll < 0.4:
+                    self.ntag += 1
+                    self.emit("call t%d %s" % (self.ntag, r.choice(["ping", "pub 0 74 6869", "sub 1 61"])))
+                elif roll < 0.7 and self.out1:
+                    self.emit("feed %s block" % H(mq.ack("puback", self.out1[0])))
+                    self.out1.pop(0)
+                elif roll < 0.85:
+                    self.emit("brk", "rs", "dial ok %s" % H(mq.connack(0, 0)), "feed block", "rs")
+            self.emit("sgo", "rs", "counters")
+            # the model does not follow a publish parked in the store: what comes after is judged by the monitors only
+            self.link, self.parked, self.reader_out, self.doomed = "live", True, True, False
+            self.had_conn = True
+            return
         if kind == "resend":
             # the read routine stalls inside the resend of a pending publish (it holds the write lock, not the connection control)
             if self.reader_out or not (self.out1 or self.out2) or (self.link == "live" and not self.doomed):
